@@ -17,7 +17,7 @@
 (*   driver stamps a server action BEFORE performing it and an arrival     *)
 (*   AFTER observing it, a sleep cannot end early; for a stalled handshake *)
 (*   the base is the arrival, which the server sees shortly AFTER the      *)
-(*   client started its timer (AcceptSlack = 100 ms);                      *)
+(*   client started its timer (AcceptSlack = 250 ms);                      *)
 (*   and no later than delay + handshake_timeout + 1500 ms (generous).     *)
 (* base events: refuse/rst/bad/close_*: the server's action; stall: the    *)
 (* arrival (+ handshake_timeout); mute: the arrival, or the local          *)
@@ -81,7 +81,8 @@ TAttempt ==
 TDown ==
   /\ Is("down") /\ x.sect = "run"
   /\ x.i < Len(x.steps) /\ R.n = x.i + 1 /\ x.steps[x.i + 1].beh = "down"
-  /\ Attempt(x.steps[x.i + 1])
+  /\ \/ Attempt(x.steps[x.i + 1])
+     \/ DownUnnoticed(x.steps[x.i + 1])        \* pinned mode
   /\ x' = [x EXCEPT !.i = @ + 1, !.acted = FALSE, !.didOpen = FALSE]
 
 TAct ==
@@ -122,9 +123,12 @@ TLocalOpen ==
   /\ \/ /\ ~R.nudge /\ R.n = x.i /\ cur.open /\ ~x.didOpen
         /\ \/ phase = "trying" /\ cur.beh \in Refusals /\ (cur.beh \in {"refuse", "rst"} => x.acted)
            \/ phase = "up"
+           \/ phase = "zombie" /\ srvDown       \* pinned mode: this is what makes the client notice
         /\ LocalOpen
         /\ x' = [x EXCEPT !.didOpen = TRUE,
-                          !.muteBase = IF cur.beh = "mute" /\ phase = "up" /\ x.muteBase = -1 THEN R.t0 ELSE @]
+                          !.muteBase = IF cur.beh = "mute" /\ phase = "up" /\ x.muteBase = -1 THEN R.t0 ELSE @,
+                          !.base = IF phase = "zombie" THEN R.t0 ELSE @,
+                          !.baseBeh = IF phase = "zombie" THEN "refuse" ELSE @]
      \/ /\ R.nudge /\ phase = "zombie" /\ x.noAtt     \* pinned mode: what brings the client back
         /\ LocalOpen
         /\ x' = [x EXCEPT !.base = R.t0, !.baseBeh = "refuse"]
@@ -140,6 +144,7 @@ ScriptDone ==
   /\ \/ phase = "ended"
      \/ phase = "up" /\ cur.beh = "healthy" /\ OpenDone
      \/ srvDown /\ p.mrc = 0 /\ phase = "waiting" /\ OpenDone
+     \/ srvDown /\ phase = "zombie" /\ OpenDone         \* pinned mode: the client never noticed
 
 TEcho ==
   /\ Is("local_echo") /\ ScriptDone
